@@ -37,15 +37,15 @@ theorem length_setAt {α : Type} (l : List α) (h : Nat) (x : α) : (setAt l h x
 /-! ### the tree of snapshots -/
 
 /-- `a` is a proper ancestor of handle `i` -/
-inductive Anc (hs : List HInfo) : Nat → Nat → Prop where
-  | parent {a i : Nat} {x : HInfo} : hs[i]? = some x → x.parent = some a → Anc hs a i
-  | step {a p i : Nat} {x : HInfo} : hs[i]? = some x → x.parent = some p → Anc hs a p → Anc hs a i
+inductive Anc (hs : List HInfo) (a : Nat) : Nat → Prop where
+  | parent {i : Nat} {x : HInfo} : hs[i]? = some x → x.parent = some a → Anc hs a i
+  | step {p i : Nat} {x : HInfo} : hs[i]? = some x → x.parent = some p → Anc hs a p → Anc hs a i
 
 /-- `Anc` only depends on the parent pointers -/
-theorem Anc.congr {hs hs' : List HInfo} (h : ∀ i, (hs'[i]?).map (·.parent) = (hs[i]?).map (·.parent))
+theorem Anc.congr {hs hs' : List HInfo} (h : ∀ i : Nat, (hs'[i]?).map HInfo.parent = (hs[i]?).map HInfo.parent)
     {a i : Nat} (ha : Anc hs a i) : Anc hs' a i := by
   induction ha with
-  | @parent a i x hx hp =>
+  | @parent i x hx hp =>
     have := h i
     rw [hx] at this
     cases hx' : hs'[i]? with
@@ -54,7 +54,7 @@ theorem Anc.congr {hs hs' : List HInfo} (h : ∀ i, (hs'[i]?).map (·.parent) = 
       rw [hx'] at this
       simp only [Option.map_some, Option.some.injEq] at this
       exact Anc.parent hx' (this.trans hp)
-  | @step a p i x hx hp _ ih =>
+  | @step p i x hx hp _ ih =>
     have := h i
     rw [hx] at this
     cases hx' : hs'[i]? with
@@ -64,20 +64,20 @@ theorem Anc.congr {hs hs' : List HInfo} (h : ∀ i, (hs'[i]?).map (·.parent) = 
       simp only [Option.map_some, Option.some.injEq] at this
       exact Anc.step hx' (this.trans hp) ih
 
-theorem Anc.congr_iff {hs hs' : List HInfo} (h : ∀ i, (hs'[i]?).map (·.parent) = (hs[i]?).map (·.parent))
+theorem Anc.congr_iff {hs hs' : List HInfo} (h : ∀ i : Nat, (hs'[i]?).map HInfo.parent = (hs[i]?).map HInfo.parent)
     (a i : Nat) : Anc hs' a i ↔ Anc hs a i :=
   ⟨fun x => x.congr (fun j => (h j).symm), fun x => x.congr h⟩
 
 /-- the executable ancestor test finds every ancestor when parents have smaller indices -/
-theorem isAncestor_of_anc {hs : List HInfo} (hlt : ∀ i x p, hs[i]? = some x → x.parent = some p → p < i)
+theorem isAncestor_of_anc {hs : List HInfo} (hlt : ∀ (i : Nat) (x : HInfo) (p : Nat), hs[i]? = some x → x.parent = some p → p < i)
     {a i : Nat} (h : Anc hs a i) : ∀ f, i < f → isAncestor hs a f i = true := by
   induction h with
-  | @parent a i x hx hp =>
+  | @parent i x hx hp =>
     intro f hf
     cases f with
     | zero => omega
     | succ f => simp [isAncestor, hx, hp]
-  | @step a p i x hx hp _ ih =>
+  | @step p i x hx hp _ ih =>
     intro f hf
     cases f with
     | zero => omega
@@ -102,7 +102,7 @@ theorem handle?_live {s : St} {h : Nat} {x : HInfo} (hh : s.handle? h = some x) 
 
 /-- the guard: no live handle is a descendant of `h` -/
 theorem no_live_desc {s : St} {h : Nat}
-    (hlt : ∀ i x p, s.hs[i]? = some x → x.parent = some p → p < i)
+    (hlt : ∀ (i : Nat) (x : HInfo) (p : Nat), s.hs[i]? = some x → x.parent = some p → p < i)
     (hg : hasLiveDesc s h = false) : ∀ j y, Live s j y → ¬ Anc s.hs h j := by
   intro j y hl ha
   have hj : j < s.hs.length := by
@@ -121,13 +121,13 @@ theorem no_live_desc {s : St} {h : Nat}
 
 /-! ### the invariant -/
 
-structure Inv (s : St) : Prop where
+structure SInv (s : St) : Prop where
   wf : HeapWF s.hp
   roots : ∀ i x, Live s i x → ∀ r, x.t.root = some r → r < s.hp.size
   genBound : ∀ i x, Live s i x → ∀ a, ReachO s.hp x.t.root a → (s.hp.get a).gen ≤ x.t.gen
   sep : ∀ i x j y, Live s i x → Live s j y → i ≠ j → ¬ Anc s.hs i j →
     ∀ a, ReachO s.hp x.t.root a → (s.hp.get a).gen = x.t.gen → ¬ ReachO s.hp y.t.root a
-  parentLt : ∀ i x p, s.hs[i]? = some x → x.parent = some p → p < i
+  parentLt : ∀ (i : Nat) (x : HInfo) (p : Nat), s.hs[i]? = some x → x.parent = some p → p < i
 
 theorem reach_lt {hp : Heap} (hwf : HeapWF hp) {r b : Nat} (hr : r < hp.size) (h : Reach hp r b) :
     b < hp.size := by
@@ -162,7 +162,7 @@ theorem reachO_iff_of_strip {hp hp' : Heap} {root : Option Nat}
   | none => exact Iff.rfl
   | some r => exact reach_iff_of_strip h b
 
-theorem Inv.init : Inv St.init where
+theorem SInv.init : SInv St.init where
   wf := by
     intro a ha
     simp [St.init, Heap.empty, Heap.size] at ha
